@@ -33,10 +33,10 @@ META = {
             "TLC checks every list-level clause on all 10 x 2048 golden words (distinct, own index and no other, strictly sorted under the search order for both char signednesses, unique 4-letter heads, no word of >= 4 letters a prefix of another, every abbreviation unambiguous); the code's word tables, registry, names and flags are compared with golden exhaustively (direct table read, every word through the search, every index at every phrase position through encode/decode, the debug self-test with the real normaliser)",
             "golden snapshot is the publication at the pinned release; clause 'no word is a prefix of another' read as stated in DESIGN.md (literal reading false for BIP-39 en/es 3-letter words)", TV + " (exhaustive)"),
     "C08": ("model_checking", "6/C08",
-            "the acceptance rule is Wordlists.Accepts; TLC judges the outcome of the library's word search for every character-prefix length x every subset of accents kept/dropped of every word (all accented words, sample/all of the others), negative tokens, and whole phrases with independent NFC/NFD variants per position through the real normaliser",
+            "the acceptance rule is Wordlists.Accepts; TLC judges the outcome of the library's word search for every character-prefix length x every subset of accents kept/dropped of every word (all accented words, sample/all of the others), negative tokens, whole phrases with independent NFC/NFD variants per position through the real normaliser, and a mass sweep of pseudo-random tokens over each list's own characters (2^21 quick / 2^26 thorough per Chinese list) in which every token the library accepts is judged by the rule",
             "internal search entry point polyseed_lang_find_word observed directly and through both decoders", TV),
     "C09": ("model_checking", "6/C09",
-            "TLC proves on the specification that automatic decoding is determined by the ten explicit outcomes exactly as stated (TheoremsSplit: all strings over {a,b,space} up to a length for the splitter; 4096 token sequences over real lists for the relation and precedence); every structured string is given to polyseed_decode (with and without a language pointer) and to polyseed_decode_explicit for all ten languages, also under a failing allocator; every outcome is judged by TLC, and the trace specification additionally requires explicit decoding with the unique recognising language to return exactly the automatic status (agreement relation)",
+            "TLC proves on the specification that automatic decoding is determined by the ten explicit outcomes exactly as stated (TheoremsSplit: all strings over {a,b,space} up to a length for the splitter; 4096 token sequences over real lists for the relation and precedence); every structured string is given to polyseed_decode (with and without a language pointer) and to polyseed_decode_explicit for all ten languages, also under a failing allocator; every outcome is judged by TLC; two executions per string (automatic first / explicit first) and two relations of the trace specification: explicit decoding with the unique recognising language returns exactly the earlier automatic status, and automatic decoding returns exactly the earlier explicit status of that language",
             "relation checked per call against the specification for which it is a theorem", TV),
     "C10": ("model_checking", "6/C10",
             "TLC: Supported matches the statement for all 32 x 8 (features, mask) pairs, enable/create/query lemmas; PolyseedMC explores all enabling sequences within its bound (NewSeedsAreSupported, NoReservedBit, OnlyEnableChangesMask); traces: all 8 masks (with high argument bits) x all 32 feature values x load / decode / decode_explicit with constructed vectors, create with arguments 0..15 and beyond, queries, round trips, seeds kept alive while the mask changes; the reserved-feature vectors are generated by TLC from the specification (Theorems family 'vectors') as well as constructed",
@@ -51,7 +51,7 @@ META = {
             "Polyseed.tla is the abstract model; PolyseedMC checks its invariants and action properties on all behaviours within the bound; PolyseedImpl (the implementation's step structure composed with the contract) conforms on every exit path and its dependency-call shapes are compared with the code's; behaviours of the model are replayed through the C library (spec -> code) and random walks over the whole API with up to six live seeds and the repository's own test script (in three builds) are validated event by event with the projection of ALL live seeds (code -> spec)",
             "bounded pools (spec/PolyseedMC*.cfg); walks sample beyond", TV + " + replay of TLC-generated behaviours"),
     "C14": ("exploration", "6/C14",
-            "hostile phrases, passwords and buffers (length classes around the buffer size, token-count classes, invalid UTF-8, mutations, random bytes) are executed under ASan+UBSan with assertions and in the release build with guard pages and a watchdog; TLC supplies the status oracle for every call, the ledger and input-integrity conditions; a sanitizer report, signal or hang is an event no specification action accepts",
+            "hostile phrases, passwords and buffers (length classes around the buffer size, token-count classes, invalid UTF-8, mutations, random bytes) are executed under ASan+UBSan with assertions and in the release build with guard pages and a watchdog; TLC supplies the status oracle for every call, the ledger and input-integrity conditions; a sanitizer report, signal or hang is an event no specification action accepts; thorough tier: termination at design level - TLC checks the liveness property EveryCallReturns (every begun call reaches its return under weak fairness) and NoDeadEnd on the implementation's step structure (PolyseedImpl_live.cfg)",
             "memory safety / UB verdict is the sanitizers' on the inputs explored", "trace validation with the TLA+ specification as oracle; ASan/UBSan/guard pages as observers"),
     "C15": ("fault_enumeration", "6/C15",
             "allocation failure is an independently enabled disjunct of every allocation request in PolyseedMC (all fault choices within the bound; Ledger, NoOrphanBlocks, FailuresChangeNothing); on the code every constructor x outcome class is run with the request succeeding and failing, model behaviours with NULL choices are replayed, walks run under random failure schedules, with the injected allocator and with libc malloc/free",
@@ -69,7 +69,7 @@ META = {
             "the same scripts run against -fsigned-char and -funsigned-char builds (and assert-enabled variants); both traces are validated by TLC against the one byte-level specification",
             "gcc -funsigned-char models the ARM/PowerPC ABI", TV + " on two compiler configurations"),
     "C20": ("model_checking", "6/C20",
-            "PolyseedThreads.tla: all interleavings of the footprint model (3 threads x 2 calls): NoRace, SerialResults, ReadOnlyPhase; code: N threads on disjoint seeds with the library's writable data segments write-protected (any store to static data faults deterministically), ThreadSanitizer build, list of writable static symbols compared with the model's three objects, every thread's results compared with a serial run of the same script (serial equivalence), and every thread's transcript validated by TLC against the sequential specification",
+            "PolyseedThreads.tla: all interleavings of the footprint model (3 threads x 2 calls): NoRace, SerialResults, ReadOnlyPhase; code: N threads on disjoint seeds with the library's writable data segments write-protected (any store to static data faults deterministically), ThreadSanitizer build, the threads also walk every exit path of every operation (error statuses, failing allocator, all languages) so that a store on a rarely taken path is seen; the list of writable static symbols is recorded in the evidence (an inventory, not a verdict); every thread's results compared with a serial run of the same script (serial equivalence), and every thread's transcript validated by TLC against the sequential specification",
             "race freedom on the code is the observers' verdict on the schedules run; the model covers the design", TV + "; mprotect/TSan as observers"),
 }
 
